@@ -36,6 +36,12 @@ def gen_hist(r, maxlen):
         elif k < 0.70:
             ops.append("s:%s:-:g:%s" % (r.choice("lB"), r.choice("cW")))
             counter += 1
+        elif k < 0.78 and n <= 50:
+            preset = "-" if r.random() < 0.6 else str(r.choice([1, 7, U32 - 1, counter, counter + 2, r.randrange(1, U32)]))
+            good = r.random() < 0.85
+            kk = r.choice([0, 0, 1, 2, 5])
+            ops.append("p:%s:%s:%s:%d" % (r.choice("lB"), preset, "g" if good else "b", kk))
+            counter += kk + (1 if preset == "-" else 0)
         elif k < 0.90:
             p = r.choice([1, 2, U32 - 1, U32 - 2, 0x80000000, 0x01020304, counter, counter + 1, max(1, counter - 1),
                           r.randrange(1, U32), r.randrange(1, 300)])
@@ -113,6 +119,8 @@ def hist_predicate(line, out):
     if "PANIC" in toks:
         # only legitimate when the serials are exhausted (decided by the caller for the exhaustion case)
         return ["alloc_serial/send_message panicked"]
+    if "NOPARTIAL" in toks:
+        return None                        # the kernel took 200 kB at once: no partial write to suspend at
     if len(toks) != len(ops):
         return ["%d results for %d operations" % (len(toks), len(ops))]
     last = 0
@@ -127,16 +135,33 @@ def hist_predicate(line, out):
                 bad.append("alloc_serial returned %d after %d (must be non-zero, < 2^32 and greater than every earlier one)" % (s, last))
             last = max(last, s)
         else:
+            resumed = f[0] == "p"
             if f[3] == "b":
-                if t != "e":
+                if t != "e" and not (resumed and t.startswith("e:")):
                     bad.append("a message with an invalid member name was sent: %s" % t)
+                    continue
+                if f[2] == "-":
+                    last += 0          # the burnt serial is not observable; the next fresh one must still be larger
+                for b in ([int(x) for x in t[2:].split("+")] if t.startswith("e:") else []):
+                    if not (0 < b < U32) or b <= last:
+                        bad.append("alloc_serial returned %d after %d" % (b, last))
+                    last = max(last, b)
                 continue
-            if not t.startswith("s:"):
+            if not t.startswith(f[0] + ":"):
                 bad.append("sending a valid message failed (%s)" % t)
                 continue
             parts = t.split(":")
+            if resumed and (len(parts) < 5 or not parts[2].isdigit()):
+                bad.append("the resumed send did not deliver the whole message (%s)" % t)
+                continue
+            between = []
+            if resumed:
+                between = [int(x) for x in parts[4].split("+")] if parts[4] != "-" else []
+                if len(between) != int(f[4]):
+                    bad.append("%d allocations asked, %d made" % (int(f[4]), len(between)))
+                parts = parts[:4] + parts[5:]
             if len(parts) > 4:
-                bad.append("SendMessageContext::serial() is %s but write_all returned %s" % (parts[4][3:], parts[1]))
+                bad.append("SendMessageContext::serial() is %s but write()/write_all returned %s" % (parts[4][3:], parts[1]))
             _, rep, wire, flag = parts[:4]
             rep, wire = int(rep), int(wire)
             if rep != wire:
@@ -150,6 +175,10 @@ def hist_predicate(line, out):
                 if not (0 < rep < U32) or rep <= last:
                     bad.append("fresh serial %d after %d (must be non-zero and greater than every earlier one)" % (rep, last))
                 last = max(last, rep)
+            for b in between:        # handed out while the send was suspended: after the message's own serial
+                if not (0 < b < U32) or b <= last:
+                    bad.append("alloc_serial returned %d after %d while a send was suspended" % (b, last))
+                last = max(last, b)
     return bad
 
 
@@ -210,8 +239,9 @@ def coq_crosscheck(ctx, lines, impl):
     """a few short histories evaluated by coqc itself (vm_compute run_ops) and compared with what the
     implementation did: guards the extraction and the OCaml driver"""
     import re
-    picked = [(l, o) for l, (o, _) in zip(lines, impl)
-              if l.startswith("hist") and o and "PANIC" not in o and 3 <= len(l.split(" ")) <= 14][:8]
+    cand = [(l, o) for l, (o, _) in zip(lines, impl)
+            if l.startswith("hist") and o and "PANIC" not in o and "NOPARTIAL" not in o and 3 <= len(l.split(" ")) <= 14]
+    picked = [c for c in cand if " p:" in c[0]][:5] + [c for c in cand if " p:" not in c[0]][:5]
     if not picked:
         return
     terms = []
@@ -220,15 +250,21 @@ def coq_crosscheck(ctx, lines, impl):
         for o in l.split(" ")[1:]:
             if o == "a":
                 ops.append("OpAlloc")
+            elif o.startswith("p:"):
+                f = o.split(":")
+                ops.append("OpSendResumed (mk %s %s %s) %s" % ("BE" if f[1] == "B" else "LE", "None" if f[2] == "-" else "(Some %s)" % f[2],
+                                                              "255" if f[3] == "b" else "0", f[4]))
             else:
                 f = o.split(":")
                 ops.append("OpSend (mk %s %s %s)" % ("BE" if f[1] == "B" else "LE", "None" if f[2] == "-" else "(Some %s)" % f[2],
                                                     "255" if f[3] == "b" else "0"))
-        terms.append("Eval vm_compute in (match run_ops flds [%s] conn_init with Ok (_, evs) => Some (map obs evs) | _ => None end)." % "; ".join(ops))
+        terms.append("Eval vm_compute in (match run_ops flds [%s] conn_init with Ok (_, evs) => Some (flat_map obs evs) | _ => None end)." % "; ".join(ops))
     v = ("From RB Require Import Base.Prelude Conn.Serial Conn.SerialProofs.\n"
          "Definition mk (bo : endian) (p : option N) (flags : N) : message := {| msg_typ := MCall; msg_flags := flags; msg_dyn := {| dh_interface := None; dh_member := None; dh_object := None; dh_destination := None; dh_serial := p; dh_sender := None; dh_signature := None; dh_error_name := None; dh_response_serial := None; dh_num_fds := None |}; msg_bo := bo; msg_body := []; msg_raw_fds := [] |}.\n"
          "Definition flds (m : message) : option (list N) := if msg_flags m =? 255 then None else Some [].\n"
-         "Definition obs (e : event) : N * N * N := match e with EvAlloc s => (0, s, 0) | EvSent _ r hb => (1, r, match wire_serial hb with Some s => s | None => 0 end) | EvSendErr _ => (2, 0, 0) end.\n"
+         "Definition ws (hb : list N) : N := match wire_serial hb with Some s => s | None => 0 end.\n"
+         "Definition al (b : list N) : list (N * N * N) := map (fun s => (0, s, 0)) b.\n"
+         "Definition obs (e : event) : list (N * N * N) := match e with EvAlloc s => [(0, s, 0)] | EvSent _ r hb => [(1, r, ws hb)] | EvSendErr _ b => (2, 0, 0) :: al b | EvSentResumed _ b r hb => (3, r, ws hb) :: al b end.\n"
          + "\n".join(terms) + "\n")
     out = vlib.coq_eval("c13_cross", v)
     blocks = re.split(r"^\s*= ", out, flags=re.M)[1:]
@@ -240,7 +276,16 @@ def coq_crosscheck(ctx, lines, impl):
         want = []
         for t in o.split(" "):
             f = t.split(":")
-            want.append((0, int(f[1]), 0) if f[0] == "a" else (2, 0, 0) if t == "e" else (1, int(f[1]), int(f[2])))
+            if f[0] == "a":
+                want.append((0, int(f[1]), 0))
+            elif f[0] == "e":
+                want.append((2, 0, 0))
+                want += [(0, int(x), 0) for x in (f[1].split("+") if len(f) > 1 else [])]
+            elif f[0] == "p":
+                want.append((3, int(f[1]), int(f[2])))
+                want += [(0, int(x), 0) for x in (f[4].split("+") if f[4] != "-" else [])]
+            else:
+                want.append((1, int(f[1]), int(f[2])))
         ctx.count("in_coq_vm_compute_cases")
         if got != want:
             ctx.disagreements_checked += 1
@@ -252,7 +297,9 @@ def run(ctx):
     thorough = ctx.tier == "thorough"
     ctx.rule = ("histories = 1-200 operations on one real connection drawn from alloc_serial, send_message+write_all / "
                 "send_message_write_all of a fresh-serial message, of a message with a preset serial (boundary values, values "
-                "colliding with the counter), and of a message that fails to marshal (it burns a serial); little/big endian. "
+                "colliding with the counter), and of a message that fails to marshal (it burns a serial), and of a 200 kB message that is suspended after "
+                "a real partial write (into_progress), sees 0-5 alloc_serial calls, is resumed (resume) and written to the end, the "
+                "serial returned by write() and by the resumed context compared with bytes 8..12 the peer read; little/big endian. "
                 "Plus one history that exhausts the 2^32-2 serials. replies = make_response / make_error_response / "
                 "unknown_method / invalid_args on headers that were marshalled and decoded (random serial, sender, "
                 "destination, interface present or absent) and on hand-built headers (no serial, NUL bytes, invalid names); "
@@ -323,7 +370,7 @@ def run(ctx):
             continue
         if is_hist:
             ops = line.split(" ")[1:]
-            kinds = {("a" if o == "a" else "b" if ":b:" in o else "p" if o.split(":")[2] != "-" else "s") for o in ops}
+            kinds = {("a" if o == "a" else "r" if o.startswith("p:") else "b" if ":b:" in o else "p" if o.split(":")[2] != "-" else "s") for o in ops}
             ctx.case(line, nontrivial=len(kinds) >= 2,
                      sample={"input": line[:150], "impl": out[:150]} if len(ops) in (5, 10) else None)
             ctx.count("hist:len<=10" if len(ops) <= 10 else "hist:len<=50" if len(ops) <= 50 else "hist:len<=200")
@@ -331,7 +378,12 @@ def run(ctx):
             ctx.count("ops:send_fresh", sum(1 for o in ops if o.startswith("s:") and o.split(":")[2] == "-" and ":g:" in o))
             ctx.count("ops:send_preset", sum(1 for o in ops if o.startswith("s:") and o.split(":")[2] != "-" and ":g:" in o))
             ctx.count("ops:send_marshal_error", sum(1 for o in ops if ":b:" in o))
+            ctx.count("ops:send_suspended_and_resumed", sum(1 for o in ops if o.startswith("p:") and ":g:" in o))
+            ctx.count("ops:alloc_while_suspended", sum(int(o.split(":")[4]) for o in ops if o.startswith("p:")))
             viol = hist_predicate(line, out)
+            if viol is None:
+                ctx.count("hist:no_partial_write_possible")
+                continue
             model_obs = mo.split(" issued=")[0]
             differs = out != model_obs
         else:
